@@ -139,6 +139,7 @@ type Machine struct {
 	conds map[*Value]*condState
 	nchoice int
 	atomicSection int
+	ss simplState
 }
 
 func (m *Machine) noteFunc(fn *ssa.Function, native bool) {
@@ -147,13 +148,6 @@ func (m *Machine) noteFunc(fn *ssa.Function, native bool) {
 	} else {
 		m.funcs[fn]++
 	}
-}
-
-func (m *Machine) addPC(c *Term) {
-	if c.IsTrue() {
-		return
-	}
-	m.pc = append(m.pc, c)
 }
 
 func (m *Machine) syncSolver() {
@@ -177,98 +171,6 @@ func (m *Machine) pushDecision(d byte) {
 	if len(m.trace_) > m.maxDepth {
 		panic(pathEnd{"depth-budget"})
 	}
-}
-
-// branch decides a symbolic condition, forking when both sides are feasible.
-func (m *Machine) branch(c *Term) bool {
-	if c.op == OpConst {
-		return c.val != 0
-	}
-	if m.pos < len(m.prefix) {
-		d := m.prefix[m.pos]
-		m.pos++
-		m.trace_ = append(m.trace_, d)
-		if d == 1 {
-			m.addPC(c)
-		} else {
-			m.addPC(m.tc.BNot(c))
-		}
-		return d == 1
-	}
-	nc := m.tc.BNot(c)
-	rt := m.check(c)
-	if rt == ResUnsat {
-		// pc is satisfiable by construction, so the false side is feasible
-		m.pos++
-		m.pushDecision(0)
-		m.addPC(nc)
-		return false
-	}
-	rf := m.check(nc)
-	m.pos++
-	if rf == ResUnsat {
-		m.pushDecision(1)
-		m.addPC(c)
-		return true
-	}
-	// both feasible: schedule the false side, continue with the true side
-	alt := make([]byte, len(m.trace_)+1)
-	copy(alt, m.trace_)
-	alt[len(m.trace_)] = 0
-	m.hr.push(alt)
-	m.pushDecision(1)
-	m.addPC(c)
-	return true
-}
-
-// branchNoFork reports whether c holds on every continuation of this path
-// (no fork; the answer is recorded so replays do not re-query).
-func (m *Machine) branchNoFork(c *Term) bool {
-	if c.op == OpConst {
-		return c.val != 0
-	}
-	if m.pos < len(m.prefix) {
-		d := m.prefix[m.pos]
-		m.pos++
-		m.trace_ = append(m.trace_, d)
-		return d == 1
-	}
-	r := m.check(m.tc.BNot(c))
-	m.pos++
-	if r == ResUnsat {
-		m.pushDecision(1)
-		return true
-	}
-	m.pushDecision(0)
-	return false
-}
-
-// assume adds c to the path condition; the path ends if c cannot hold.
-func (m *Machine) assume(c *Term) {
-	if c.op == OpConst {
-		if c.val == 0 {
-			panic(pathEnd{"assume-false"})
-		}
-		return
-	}
-	if m.pos < len(m.prefix) {
-		d := m.prefix[m.pos]
-		m.pos++
-		m.trace_ = append(m.trace_, d)
-		if d == 0 {
-			panic(pathEnd{"assume-false"})
-		}
-		m.addPC(c)
-		return
-	}
-	r := m.check(c)
-	m.pos++
-	if r == ResUnsat {
-		m.pushDecision(0)
-		panic(pathEnd{"assume-false"})
-	}
-	m.pushDecision(1)
-	m.addPC(c)
 }
 
 func (m *Machine) cut(what string) {
@@ -329,6 +231,10 @@ func (m *Machine) model(extra *Term, also []*Term) (map[string]uint64, map[strin
 
 func (m *Machine) assertProp(fr *frame, c *Term, tag string) {
 	hr := m.hr
+	if c.op == OpConst && c.val != 0 {
+		return
+	}
+	c = m.simp(c)
 	if c.op == OpConst && c.val != 0 {
 		return
 	}
